@@ -16,6 +16,7 @@ import (
 // a temporary name) and for the removals that follow a publication:
 //   R1  every write to src that completed before the rename is covered by an fsync of src that started after the write
 //       completed and itself completed before the rename started;
+//   R3  a file selected by the caller is never written under its final name (its content arrives there by a rename only);
 //   R2  a file named by removeAfter(dst) (the data the published file replaces) is unlinked only after a directory fsync
 //       that started after the rename has completed.
 
@@ -57,7 +58,8 @@ func checkRenameDurability(tracePath string, publish func(dst string) bool, remo
 	pendS := map[string]pend{}
 	dirSyncEpoch := map[string]int{} // dir -> number of renames that had started when the last completed dir fsync started
 	renameCount := 0
-	needDirSync := map[string]int{} // file that may be removed -> rename ordinal it waits for
+	renamedInto := map[string]bool{} // paths that got their content through a rename
+	needDirSync := map[string]int{}  // file that may be removed -> rename ordinal it waits for
 	fail := func(format string, a ...any) {
 		if out.Violation == "" {
 			out.Violation = fmt.Sprintf(format, a...)
@@ -87,6 +89,9 @@ func checkRenameDurability(tracePath string, publish func(dst string) bool, remo
 			case "write", "pwrite64":
 				if path == "" {
 					continue
+				}
+				if publish(path) && !renamedInto[path] {
+					fail("syscall trace: %s is written under its final name (not under a temporary name that is renamed into place after an fsync)", filepath.Base(path))
 				}
 				if unfinished {
 					pendW[pid] = path
@@ -125,6 +130,9 @@ func checkRenameDurability(tracePath string, publish func(dst string) bool, remo
 		if m := srRename.FindStringSubmatch(ln); m != nil {
 			src, dst := m[2], m[3]
 			renameCount++
+			if src != dst {
+				renamedInto[dst] = true
+			}
 			if !publish(dst) {
 				continue
 			}
